@@ -23,6 +23,27 @@ NOTES = ("Run ./check <ID> quick|thorough from /verif.  Exit 0/1/2 = held / VIOL
          "known_findings.json lists repaired defects (status fixed, regression inputs) and open findings.")
 NOT_APPLICABLE = {}
 CHECKS = {
+    "C11": dict(
+        level="exploration",
+        technique="reference index model (written from gitformat-index) + C git differential both ways + exhaustive truncation / single-byte damage of small index files",
+        text="For generated entry sets (byte paths incl. non-UTF-8, names 0xFFE..0x2000+, v4 strip lengths across the varint boundaries, stat fields up to 2^64-1, int/float/(s,ns) times, all modes, assume-valid / skip-worktree / intent-to-add, every stage subset) x version {None,2,3,4} x skip_hash: the file dulwich writes is a well-formed index in git's order with exactly the expected fields (independent parser), dulwich re-reads it identically and git ls-files --stage --debug lists the same entries; index files written by the reference writer (TREE/REUC/UNTR/unknown extensions, null trailer) and by scripted C git are read identically by dulwich and, after an API edit and rewrite, stay well-formed, keep unknown extensions byte for byte and agree with git; a failing write leaves the previous index untouched; every truncation and single-byte flip of 13 hashed v2/v3/v4 files is refused.",
+        design_ref="DESIGN.md §4 C11",
+        note="trusted: git 2.39.5 ls-files as reader, vf/model/c11_index.py (self-tested byte-identical against git-written v2/v3/v4 files each run); NUL-free non-empty paths without file/dir prefix conflicts; SHA-1 repos; split index and git-written skipHash (git>=2.40) not covered",
+    ),
+    "C12": dict(
+        level="exploration",
+        technique="reference tree/diff model validated against C git (mktree, write-tree, diff-tree -r/-t/-M100%/pathspec) + exhaustive small universe of collision names + Hypothesis edit scripts + apply/rebuild metamorphic relations, Rust and Python twins side by side",
+        text="On 2916 exhaustive (thorough 69696) and generated pairs of flat listings over names that sort around '/', with file/dir/symlink/gitlink type changes, emptied directories, identical subtrees, deep nesting and None/empty sides: commit_tree ids, stored bytes and Tree.items() order equal git's; flatten and tree_lookup_path invert the build; tree_changes under every want_unchanged/include_trees/change_type_same combination and path filters is sound, complete, duplicate-free, prunes identical subtrees, applies to flat(A) giving flat(B) and equals git's raw diff; RenameDetector output (5 configurations) stays apply-sound and finds every unique exact rename git -M100% finds; commit_tree_changes(A, delta) equals rebuilding B.",
+        design_ref="DESIGN.md §4 C12",
+        note="trusted: git 2.39.5 and vf/model/c12_model.py (compared with git in every run; disagreement = harness error); valid listings, MemoryObjectStore, SHA-1, plain path filters; similarity renames checked for soundness only; tree_changes_for_merge not covered",
+    ),
+    "C19": dict(
+        level="exploration",
+        technique="reference framer (from protocol-common.txt) + round trip under exhaustive / drawn read chunkings + exhaustive length-prefix enumeration + git differential (upload-pack peer under GIT_TRACE_PACKET, advertise-refs producer)",
+        text="Every dulwich pkt-line/side-band writer is checked against an independent framer and every reader (read_pkt_line on Protocol/ReceivableProtocol, read_pkt_seq, eof/unread, PktLineParser+get_tail, side-band demux, PackStreamReader/Copier, read_pkt_refs_v1, extract_capabilities/want-line) must return the encoded sequence for all partitions of every stream <= 12 bytes (thorough 14) and for drawn partitions cutting inside length prefixes and bodies of long streams up to 65516-byte payloads; all 65536 length values (both hex cases) x 4 body lengths and all 14^4 lenient-alphabet prefixes must give frames or GitProtocolError; oversize payloads must be split or refused; git 2.39.5 must read dulwich-written requests packet for packet and dulwich must read git's ref advertisements.",
+        design_ref="DESIGN.md §4 C19",
+        note="trusted: vf/model/c19_ref.py framer/pack writer (self-tested vs git each run), git 2.39.5; Protocol(read=) only given exact reads, short reads only via ReceivableProtocol/PktLineParser; not covered: atheris, memory bound, read_pkt_refs_v2",
+    ),
     "C08": dict(
         level="exploration",
         engine="vf+interpose",
